@@ -104,6 +104,7 @@ func shortFn(fn string) string {
 		fn = fn[:i]
 	}
 	fn = strings.TrimPrefix(fn, "github.com/scionproto/scion/")
+	fn = strings.TrimPrefix(fn, "router/underlayproviders/")
 	return fn
 }
 
@@ -125,8 +126,21 @@ func parseRaceLog(log string) []raceReport {
 		var fns []string
 		lines := strings.Split(text, "\n")
 		for k, l := range lines {
-			if (strings.Contains(l, " at 0x") && strings.Contains(l, " by ")) && k+1 < len(lines) {
-				fns = append(fns, shortFn(lines[k+1]))
+			if !(strings.Contains(l, " at 0x") && strings.Contains(l, " by ")) {
+				continue
+			}
+			// first frame of the access that is not in the Go runtime
+			for m := k + 1; m < len(lines) && strings.TrimSpace(lines[m]) != ""; m++ {
+				if strings.HasPrefix(lines[m], "      ") { // file:line of the frame above
+					continue
+				}
+				fn := shortFn(lines[m])
+				if strings.HasPrefix(fn, "runtime.") || strings.HasPrefix(fn, "sync.") || strings.HasPrefix(fn, "sync/atomic.") ||
+					strings.HasPrefix(fn, "internal/") {
+					continue
+				}
+				fns = append(fns, fn)
+				break
 			}
 		}
 		sort.Strings(fns)
@@ -166,21 +180,41 @@ func panicSite(stderr string) (msg, site, stack string) {
 		return "", "unknown", s
 	}
 	site = "unknown"
+	prev := ""
 	for _, l := range strings.Split(stack, "\n") {
 		l = strings.TrimSpace(l)
 		if !strings.HasPrefix(l, root+"/") || strings.Contains(l, "/pkg/log/") {
+			prev = l
 			continue
 		}
-		if i := strings.Index(l, " "); i > 0 {
-			l = l[:i]
-		}
-		site = strings.TrimPrefix(l, root+"/")
+		// stable identity: slug of the message + the function (no line numbers)
+		site = slug(msg) + ":" + shortFn(prev)
 		break
 	}
 	if len(stack) > 4000 {
 		stack = stack[:4000]
 	}
 	return
+}
+
+func slug(s string) string {
+	var b strings.Builder
+	for _, c := range strings.ToLower(s) {
+		switch {
+		case c >= 'a' && c <= 'z':
+			b.WriteRune(c)
+		case c >= '0' && c <= '9':
+			b.WriteByte('N')
+		default:
+			if b.Len() > 0 && !strings.HasSuffix(b.String(), "-") {
+				b.WriteByte('-')
+			}
+		}
+		if b.Len() >= 48 {
+			break
+		}
+	}
+	return strings.Trim(b.String(), "-")
 }
 
 func checkC14(r *mon.Run) {
@@ -202,7 +236,7 @@ func checkC14(r *mon.Run) {
 	nRuns := r.Pick(40, 1000)
 	nLoad := r.Pick(12, 150)
 	packets := 20000
-	par := 4
+	par := 8
 	raceDir, err := os.MkdirTemp("", "routerrun-c14-")
 	if err != nil {
 		fmt.Println("cannot create temp dir:", err)
